@@ -963,6 +963,28 @@ STATELESS_CLASSES = ('CSVDailyBarDataSource', 'BacktestDataHandler', 'SingleSign
                   'DollarWeightedCashBufferedOrderSizer', 'LongShortLeveragedOrderSizer', 'PortfolioConstructionModel', 'ExecutionHandler', 'QuantTradingSystem')
 
 
+def _reset_only(m, fld):
+    """the method never reads self.<fld> and assigns it nothing but None / an empty literal"""
+    n_w = 0
+    for n in ast.walk(m.node):
+        if isinstance(n, ast.Attribute) and n.attr == fld and isinstance(n.value, ast.Name) and n.value.id == 'self':
+            if not isinstance(n.ctx, ast.Store):
+                return False
+    for n in ast.walk(m.node):
+        if isinstance(n, (ast.AugAssign, ast.AnnAssign)) and any(isinstance(x, ast.Attribute) and x.attr == fld for x in ast.walk(n.target)):
+            return False
+        if isinstance(n, ast.Assign) and any(isinstance(x, ast.Attribute) and x.attr == fld and isinstance(x.value, ast.Name) and x.value.id == 'self' for t in n.targets for x in ast.walk(t)):
+            if not all(isinstance(t, ast.Attribute) for t in n.targets):
+                return False
+            v = n.value
+            empty = (isinstance(v, ast.Constant) and v.value is None) or (isinstance(v, (ast.Dict, ast.List, ast.Set, ast.Tuple)) and not (getattr(v, 'keys', None) or getattr(v, 'elts', None))) or \
+                (isinstance(v, ast.Call) and isinstance(v.func, ast.Name) and v.func.id in ('dict', 'list', 'set', 'tuple') and not v.args and not v.keywords)
+            if not empty:
+                return False
+            n_w += 1
+    return n_w > 0
+
+
 def state_scan(ctx, cnames):
     """hand-rolled state in the given classes (see the comment below); also used by the checks of the properties those classes carry"""
     M = ctx.M
@@ -1006,6 +1028,9 @@ def state_scan(ctx, cnames):
                 continue
             memos = None
             for fld, (n, how) in sorted(found.items()):
+                if _reset_only(m, fld):
+                    ctx.holds('C18.memo', '%s only ever empties self.%s (dropping what is kept cannot make a later answer depend on an earlier question)' % (m.qn, fld), m.site(n))
+                    continue
                 if not _field_is_read(M, fld):
                     ctx.holds('C18.memo', '%s records into self.%s, which nothing reads back' % (m.qn, fld), m.site(n))
                     continue
